@@ -15,6 +15,12 @@ for d in sorted(glob.glob(f"/verif/seeded/{P}-*/")):
     funcs = sorted({l.split("@@")[-1].strip()[:70] for l in open(d + "patch.diff") if l.startswith("@@") and l.split("@@")[-1].strip()})
     taken.append(f"- {os.path.basename(d.rstrip('/'))}: {', '.join(files)} ({'; '.join(funcs[:3])})")
 W, O = f"/tmp/seed/{P}", f"/tmp/seed/{P}-out"
+extra = ""
+if int(R) >= 5:
+    extra = ("* This is a late round: the obvious places are taken. Prefer mechanisms that live on FAILURE PATHS or in STATE OVER TIME - a solver call that\n"
+             "  ends non-optimal / raises at one particular point, an exception half-way through a multi-step update, state kept in a worker process,\n"
+             "  a module-level or class-level cache, process-global configuration changed between two calls, an object reused after it was removed,\n"
+             "  copied or pickled, the second call on the same object - over plain input-shape changes. At least one of your two changes should be of that kind.")
 print(f"""You are helping to evaluate a verification harness for the Python library cobrapy (constraint-based metabolic modelling).
 Your job: write TWO independent, realistic *defect-introducing changes* ("seeded changes") to cobrapy, each of which breaks the semantic
 property quoted below while the code still imports, and the repository's existing test suite still passes. They will later be used
@@ -52,6 +58,7 @@ anchors (where the behaviour lives): {json.dumps(prop['anchors'], indent=1)}
   schedule, a solver failure or exception at a particular point, a multi-step sequence of operations, an unusual (but legal) input,
   a particular configuration, or two cooperating sites that each look fine alone.
 * The two changes must use different mechanisms in different functions.
+{extra}
 * Earlier rounds already used the following places - do something DIFFERENT (other functions or clearly other mechanisms); look for the
   less obvious places the property also depends on:
 {chr(10).join(taken) if taken else '- (none)'}
